@@ -16,6 +16,8 @@ func c27Parse(typ Type, maxLen int) {
 		verifReach("rejected")
 	} else {
 		verifAssert("C27:accepted-value-is-present", v != nil)
+		// what ResolveResources does first with a variable's value
+		verifAssert("C27:accepted-value-has-the-requested-type", v.GetType() == typ)
 		if p, ok := v.(Portion); ok {
 			verifAssert("C27:accepted-portion-is-between-0-and-1", p.Specific.Cmp(big.NewRat(0, 1)) >= 0 && p.Specific.Cmp(big.NewRat(1, 1)) <= 0)
 		}
@@ -39,5 +41,21 @@ func Harness_C27_parse_number() {
 	n := nondetBig("n")
 	v, err := NewValueFromString(TypeNumber, n.String())
 	verifAssert("C27:error-xor-value", (err != nil) == (v == nil))
+	verifReach("end")
+}
+
+// number variables are read as JSON text: every kind of JSON literal, not only decimal integers
+func Harness_C27_parse_number_json_literals() {
+	texts := []string{"null", "true", "false", "\"12\"", "\"\"", "1.5", "1e3", "-0", "[]", "{}", "[1]", " 7 ", "", "nul", "07"}
+	s := texts[nondetChoice("literal", len(texts))]
+	v, err := NewValueFromString(TypeNumber, s)
+	if err != nil {
+		verifAssert("C27:error-carries-no-value", v == nil)
+		verifReach("rejected")
+	} else {
+		verifAssert("C27:accepted-value-is-present", v != nil)
+		verifAssert("C27:accepted-value-has-the-requested-type", v.GetType() == TypeNumber)
+		verifReach("accepted")
+	}
 	verifReach("end")
 }
